@@ -649,10 +649,13 @@ func (c *Client) HandleInbound(data []byte, from net.Addr) (bool, error) {
 	//  - Non-STUN message from the STUN server
 
 	switch {
-	case stun.IsMessage(data):
-		return true, c.handleSTUNMessage(data, from)
+	// ChannelData is tested first: its first two bits are 01 while a STUN
+	// message starts with 00, but stun.IsMessage only looks at the magic cookie
+	// in bytes 4..7, which in a ChannelData message are application payload.
 	case proto.IsChannelData(data):
 		return true, c.handleChannelData(data)
+	case stun.IsMessage(data):
+		return true, c.handleSTUNMessage(data, from)
 	case c.stunServerAddr != nil && from.String() == c.stunServerAddr.String():
 		// Received from STUN server but it is not a STUN message
 		return true, errNonSTUNMessage
